@@ -63,6 +63,7 @@ fn engines_for(property: &str) -> Vec<(Box<dyn Engine>, u64, u64)> {
         "C14" => vec![(Box::new(OtlpSim { focus: "C14" }), 60_000, 2_000_000)],
         "C10" => vec![
             (Box::new(Fsim { mode: "C10" }), 5_000, 200_000),
+            (Box::new(FsDiff), 3_000, 100_000),
             (Box::new(FileE2e), 20_000, 600_000),
         ],
         "C11" => vec![
